@@ -86,7 +86,8 @@ def cut(rel, start_re, end_re, include_end=True, nth=1, after_re=None):
 
 # ----------------------------------------------------------------------------------------------------------- units
 class Unit:
-    def __init__(self, name, wrapper=None, wrapper_text=None, libs=(), roots=(), cflags=(), types=(), opt=None, std=None):
+    def __init__(self, name, wrapper=None, wrapper_text=None, libs=(), roots=(), cflags=(), types=(), opt=None, std=None, cuts=()):
+        self.cuts = list(cuts)         # mangled names of functions declared unreachable (asserted): body not encoded
         self.name = name
         self.wrapper = wrapper            # path relative to VERIF, or None when wrapper_text (callable or str) is given
         self.wrapper_text = wrapper_text
@@ -136,17 +137,17 @@ class Unit:
         if r.returncode != 0:
             raise BuildError('llvm-dis: ' + r.stderr[-2000:])
         r = sh([sys.executable, os.path.join(ENGINE, 'll2c.py'), os.path.join(self.dir, 'all.ll'), self.outc] + self.roots +
-               ['--type=' + t for t in self.types])
+               ['--type=' + t for t in self.types] + ['--cut=' + c for c in self.cuts])
         if r.returncode != 0:
             raise BuildError('ll2c: ' + r.stderr[-3000:])
         m = re.search(r'emitted (\d+) functions, (\d+) globals; externals: (.*)', r.stderr)
         md = re.search(r'external-data: (.*)', r.stderr)
-        extdata = [x for x in (md.group(1).split() if md else []) if not x.startswith('_ZTV') and not x.startswith('_ZTI')]
+        extdata = [x for x in (md.group(1).split() if md else []) if not re.match(r'_ZTV|_ZTI|_ZTS|_ZNSt|_ZSt|_ZNKSt|__dso_handle|_ZGVNSt', x)]   # libstdc++/ABI data is allowed; cppcheck data is not
         if extdata and not getattr(self, 'allow_extdata', False):
             raise BuildError('unit %s: data defined outside the encoded sources would read as zero: %s (add the defining .cpp to libs)' % (self.name, ' '.join(extdata)))
         srcs = [wp] + [os.path.join(REPO, l) for l in self.libs]
         self.info = {'unit': self.name, 'roots': self.roots, 'functions_emitted': int(m.group(1)) if m else -1,
-                     'externals_stubbed': m.group(3).split() if m else [],
+                     'externals_stubbed': m.group(3).split() if m else [], 'cut_functions': self.cuts,
                      'sources': {os.path.relpath(s, REPO) if s.startswith(REPO) else os.path.relpath(s, VERIF):
                                  sha1(open(s, 'rb').read()) for s in srcs},
                      'build_s': round(time.time() - t0, 1)}
@@ -348,7 +349,7 @@ def native_build(o, unit, mode, extra_defs=()):
     hp = os.path.join(VERIF, o.harness)
     common = ['-O1', '-w', '-I', ENGINE, '-I', os.path.dirname(hp), '-fno-strict-aliasing'] + defs
     if mode == 'trans':
-        r = sh(['gcc', '-std=gnu11'] + common + ['-DNATIVE_TRANS', '-DOUTC="%s"' % unit.outc, hp, '-lm', '-o', exe])
+        r = sh(['gcc', '-std=gnu11'] + common + ['-DNATIVE_TRANS', '-DOUTC="%s"' % unit.outc, hp, '-lm', '-Wl,--unresolved-symbols=ignore-all', '-no-pie', '-o', exe])
     else:
         objs = unit.native_objs()
         ho = exe + '.o'
